@@ -76,6 +76,7 @@ class Scenario:
         subs = [dict() for _ in paths]          # per path: template var name -> fresh var
         through = {}                            # event index -> list of path indices
         created = []
+        fresh_map = {}                          # template-level free variables (e.g. a CAS outcome choice): one per instance
 
         def sig(e):
             return (e["kind"], e.get("loc"), e.get("ord"), e.get("op"), e.get("note"))
@@ -101,6 +102,10 @@ class Scenario:
                         ne.rval = fv
                         for pi in members:
                             subs[pi][str(paths[pi]["events"][depth]["rval"])] = fv
+                    for v in e.get("fresh", []):
+                        fv = fresh_map.setdefault(str(v), BitVec(f"fv_{inst_id}_{v}", 64))
+                        for pi in members:
+                            subs[pi][str(v)] = fv
                     if "wval" in e:
                         w = e["wval"]
                         sub = [(BitVec(k2, 64), v) for k2, v in subs[members[0]].items()]
@@ -133,6 +138,9 @@ class Scenario:
             sub = [(BitVec(k2, 64), v) for k2, v in subs[pi].items()]
             pc = [substitute(c, *sub) if sub else c for c in p["pc"]]
             pcs.append(And(*pc) if pc else BoolVal(True))
+        # an operation that is reached takes one of its paths (a tautology for templates that fork on a value
+        # read by a shared event; it ties a compare-exchange's outcome choice to the value it actually reads)
+        s.cons.append(Implies(g, Or(pcs)))
         for ne in created:
             ne.guard = simplify(And(g, Or([pcs[pi] for pi in through[ne.i]])))
             if "[outcome]" in ne.label:
